@@ -10,7 +10,7 @@ from vt.mon import contracts
 PROP = 'C08'
 TITLE = 'Chomsky normal form conversion'
 SHARDS = {'quick': 16, 'thorough': 32}
-TIMEOUT = {'quick': 900, 'thorough': 3600}
+TIMEOUT = {'quick': 420, 'thorough': 3600}
 REQUIRED = ['cfg_to_chomsky', 'cfg_fresh_variable', 'cfg_add_new_start_variable_in_place', 'cfg_remove_epsilon_rules_in_place',
             'cfg_eliminate_unit_rules_in_place', 'cfg_make_rules_of_length_two_in_place', 'cfg_eliminate_terminals_in_place', 'cfg_apply_chomsky']
 EXHAUSTIVE_NOTE = 'all 12383 grammars with variables {S,A}, terminals {a,b}, <=3 rules of right-hand side length <=2'
